@@ -13,6 +13,8 @@ import (
 	"time"
 
 	"github.com/vulcand/oxy/v2/buffer"
+	"github.com/vulcand/oxy/v2/utils"
+	"net/http/httptest"
 )
 
 func init() {
@@ -199,6 +201,14 @@ func c07Retry(c *Ctx) {
 			rex, withRetry, method = nil, false, "GET"
 			scripts[0] = c07Script{Status: 200}
 		}
+		recMode := i%6 == 5 && method != "HEAD"
+		if recMode {
+			for k := range scripts {
+				if scripts[k].Status == 204 || scripts[k].Status == 304 {
+					scripts[k].Status = 200 // a recorder keeps body bytes a real server would refuse
+				}
+			}
+		}
 		// model: number of invocations and which attempt is final
 		code := func(s c07Script) int {
 			if s.Status == 0 {
@@ -223,6 +233,15 @@ func c07Retry(c *Ctx) {
 				w.WriteHeader(599)
 				return
 			}
+			if recMode {
+				// an upgrade-style handler: tries to take over the connection and, when that is refused, answers normally
+				if hj, ok := w.(http.Hijacker); ok {
+					if conn, _, err := hj.Hijack(); err == nil {
+						conn.Close()
+						return
+					}
+				}
+			}
 			scripts[k-1].serve(w, k)
 		})
 		var opts []buffer.Option
@@ -238,6 +257,39 @@ func c07Retry(c *Ctx) {
 		desc := map[string]any{"retry": exprText, "method": method, "predicted_invocations": final, "final_script": scripts[final-1]}
 		if err != nil {
 			c.Violation("expression/rejected", sfmt("buffer.Retry rejected the generated expression %q: %v", exprText, err), desc)
+			return
+		}
+		if recMode {
+			// driven through a ResponseRecorder behind oxy's own ProxyWriter: a writer that offers Hijack but must refuse it
+			var rb io.Reader
+			if method == "POST" || method == "PUT" {
+				rb = bytes.NewReader(detBody(r.IntN(3000), uint64(i)))
+			}
+			rec := httptest.NewRecorder()
+			buf.ServeHTTP(utils.NewProxyWriter(rec), httptest.NewRequest(method, "http://front.test/r", rb))
+			want := httptest.NewRecorder()
+			scripts[final-1].serve(want, final)
+			c.Eval()
+			mu.Lock()
+			n := invoked
+			mu.Unlock()
+			c.Count("recorder_hijack_fallback_cases", 1)
+			if n != final {
+				c.Violation("invocations/count", sfmt("recorder: retry %q: handler invoked %d times, predicted %d", exprText, n, final), desc)
+				return
+			}
+			if rec.Code != want.Code || !bytes.Equal(rec.Body.Bytes(), want.Body.Bytes()) {
+				c.Violation("response/lost-after-refused-hijack", sfmt("the handler's Hijack was refused and it answered %d with %d body bytes; the client side got %d with %d bytes", want.Code, want.Body.Len(), rec.Code, rec.Body.Len()), desc)
+				return
+			}
+			gh, wh := rec.Header().Clone(), want.Header().Clone()
+			gh.Del("Content-Type")
+			wh.Del("Content-Type")
+			if ok, why := hdrEqual(gh, wh); !ok {
+				c.Violation("response/headers", "recorder: "+why, desc)
+				return
+			}
+			c.Nontrivial(sfmt("rec/%s/%s/%d/%v", exprText, method, final, scripts[final-1]))
 			return
 		}
 		srv.set(buf)
